@@ -170,6 +170,10 @@ pub fn row_for(fe: &FrontEnd) -> Option<Row> {
                 seg("link-text", Kind::Prose, "[{}](http://zzqhost.example/zzqpath)\n", false),
                 seg("paragraph-with-inline-code", Kind::Prose, "{} `zzqcode é😀 zzqmore` {}\n", false),
                 seg("paragraph-with-math", Kind::Prose, "{} $zzqmath + zzqvar$ {}\n", false),
+                seg("paragraph-with-double-backtick-code", Kind::Prose, "{} ``zzqcode ` zzqmore`` {}\n", false),
+                seg("paragraph-with-padded-code", Kind::Prose, "{} `` `zzqcode` `` {}\n", false),
+                seg("paragraph-with-display-math", Kind::Prose, "{} $$zzqmath + zzqvar$$ {}\n", false),
+                seg("paragraph-with-entities", Kind::Prose, "{} &lt;&gt; &amp; {}\n", false),
                 seg("fenced-code", Kind::NonProse, "```\nzzqfenced é😀 zzqcode\n```\n", false),
                 seg("indented-code", Kind::NonProse, "    zzqindented é😀 zzqcode\n", false),
                 seg("raw-html", Kind::NonProse, "<div zzqattr=\"zzqvalue\">\n</div>\n", false),
@@ -204,6 +208,8 @@ pub fn row_for(fe: &FrontEnd) -> Option<Row> {
                 seg("math", Kind::Prose, "{} $zzqmath + zzqvar$ {}\n", false),
                 seg("comment", Kind::NonProse, "// zzqcomment é😀 zzqmore\n", false),
                 seg("list", Kind::Prose, "- {}\n", false),
+                seg("string-with-escapes", Kind::Prose, "#emph(\"{} \\\" \\\\ {}\")\n", false),
+                seg("string-with-unicode-escape", Kind::Prose, "#emph(\"{} \\u{e9} {}\")\n", false),
             ],
         },
         (Class::Lhs, _) => Row {
